@@ -38,7 +38,7 @@ STREAM_DELIVERIES = SEEKABLE + NONSEEK
 MAX_SEQ = 9               # Pickled.load calls on one stream in mode "seq" (concatenations have <= 6 parts)
 BOUNDARY = [0, 1, 255, 256, 65535, 65536]
 KNOWN_SIG = "nonseekable:tail-consumed"
-CASE_TIMEOUT = 4          # seconds per case on the implementation side
+CASE_TIMEOUT = 20         # seconds per case on the implementation side
 MAX_HANGS = 2             # a worker gives up after this many hung cases (the check has failed by then)
 
 
